@@ -284,11 +284,11 @@ LATER = {
     "C07": "Also: family CW (histories through StatsdClient) and family UR (the real UDP sinks over a socket connected to a "
            "closed port: ECONNREFUSED on every other send, then a listener appears) - every call must return.  Outages in which the listener's socket file stays (ECONNREFUSED), family c.",
     "C10": "Also: the usize an accepted emit returns is the metric's byte length (non-ASCII payloads); the bound of large "
-           "queues (capacities 70 000, 2^20, 2^20+3: worker parked, capacity + k emits, exactly capacity accepted).  An unbounded queue with its worker parked accepts more than 2^21 metrics (QB u).",
+           "queues (capacities 70 000, 2^20, 2^20+3: worker parked, capacity + k emits, exactly capacity accepted).  An unbounded queue with its worker parked accepts more than 2^21 metrics (QB u).  Builder options set twice (constructor 4: the option set last is in force).",
     "C11": "Also: unbroken runs of 17-70 panics; a panic soak of 28 000 panics over the life of one sink (own process).  The same metric text emitted repeatedly (payload shape d) around panics and failures.",
     "C13": "Also: statistics read in the middle of a history (op s: reading puts nothing on the wire), UDP sockets connected "
            "to a closed port (family UR); capacities above one IPv4 datagram (an emit that fits the configured capacity puts "
-           "nothing on the wire); Unix paths that cannot be socket addresses (family XL).  Unix paths that are not valid UTF-8 with a second listener at the lossy name (families XN / BXN).  Outages with the socket file left behind (op c); emits made by a destructor of an unwinding thread (op P); an IPv4 sender whose first resolved address is IPv6 (UA4); address arguments that yield no address (UE).  65 508 / 65 527-byte metrics to an IPv6 listener (UO6); recovery after WouldBlock (XW).",
+           "nothing on the wire); Unix paths that cannot be socket addresses (family XL).  Unix paths that are not valid UTF-8 with a second listener at the lossy name (families XN / BXN).  Outages with the socket file left behind (op c); emits made by a destructor of an unwinding thread (op P); an IPv4 sender whose first resolved address is IPv6 (UA4); address arguments that yield no address (UE).  65 508 / 65 527-byte metrics to an IPv6 listener (UO6); recovery after WouldBlock (XW).  A sink handed a socket already connected to another peer (UK); flush idempotence on the real sockets.",
     "C14": "Also: statistics read in the middle of a history equal the figures of the datagrams received so far; families UR "
            "and XL (sends refused before they reach the OS are dropped packets too).  Family UA4 (every send to an unreachable first address is one dropped packet; the second address is no fallback).",
     "C02": "Also: the value section of every standalone constructor's text against the canonical numeral; Display of every "
@@ -300,14 +300,14 @@ LATER = {
            "sink alive in the process (full with its stop pending / respawned after a panic), which must deliver and be "
            "released too.  Producers that are worker threads of a queuing sink (family QW: chained sinks, a handler emitting through a clone).",
     "C09": "Also: family QD (two queuing sinks in one process: the other one full with its stop marker pending for the whole "
-           "history).",
+           "history).  Handles dropped by a fresh unnamed thread (op T).",
     "C12": "Also: calls made by a destructor while the calling thread unwinds from a caught panic (ops G / g).  The shared buffer under real back-pressure (sock family XW, buffered: WouldBlock, then recovery).",
     "C15": "Also: soaks of 8-12 producers released together by a barrier (lost updates of a counter need overlapping increments).  The counters at the quiescent end of the panic soaks.",
     "C16": "Also: a wrapped sink that answers Ok(0) (accepted: the handler stays silent); an unscripted flush of the wrapped "
            "sink answers with an error of its own (a worker that flushes shows up in the handler's record); failures that carry a "
-           "raw OS errno, the same one several times in a row.  Wrapped sinks answering Ok(k) for arbitrary k (release outcome Rn<k>).",
+           "raw OS errno, the same one several times in a row.  Wrapped sinks answering Ok(k) for arbitrary k (release outcome Rn<k>).  Constructor 4: a first handler that must never run.",
     "C17": "Also: the holder's read functions get_global_default / is_global_default_set before, between and after the sets, on "
-           "the calling and on fresh threads; a macro must not flush the sink.  Invocations made by a destructor while its thread unwinds from a panic (step U).",
+           "the calling and on fresh threads; a macro must not flush the sink.  Invocations made by a destructor while its thread unwinds from a panic (step U).  An invocation whose value expression invokes another macro (step N).",
     "C18": "Also: programs that format the holder with {:?} under the scheduler (a trait impl is a fourth access path); the "
            "global holder through set_global_default / get_global_default / is_global_default_set in fresh processes; two "
            "compile-fail witnesses for the bounds of the unsafe Send/Sync impls.  Every schedule the model enumerates for small programs also runs, each in a fresh child process, on the process-wide holder through the three free functions under the blocking tracer (family G).",
